@@ -55,7 +55,7 @@ Definition breaker_pub (p : bcfg * bstate (S := stats)) : list Z :=
   state_code (snd p) :: metrics conc_impl (state_stats (snd p)).
 
 Definition pub_state (w : world) : list (list Z) * list (list (Z * Z)) :=
-  (map breaker_pub (w_breakers w), map (fun c => sort_kv (filter (fun p => negb (fst p =? 0)) c)) (w_caches w)).
+  (map breaker_pub (w_breakers w), map sort_kv (w_caches w))  (* key 0 is the empty key: an entry a backend holds under it is never read or written *).
 
 Definition init_world_insts (start : Z) (i : insts) :=
   (map (fun calls => let c := build_bcfg calls in (c, cb_init c)) (i_breakers i),
